@@ -17,6 +17,10 @@ CLAIMS = {
    text="Deductive proof with exceptional control flow (panic/defer/recover are modelled): (1) ASA/IOS/Linux cmd returns normally only after every reply of the (possibly joined) command has been read, its echo stripped and the remainder found empty or acceptable; any other outcome ends in errlog.Abort; while a panic propagates only session clean-up commands may be sent (precondition of every send primitive); (2) every ApplyCommands returns nil only if all change commands were accepted and the save/commit was confirmed ([OK] after write memory, job result OK or 'nothing to commit', HTTP 200 and status=success for every request; no change request after a failed one); (3) device.approve returns nil only then, ApproveOrCompare returns 0 only without abort and (for approve) with confirmed changes, and only 0 or 1; (4) do-approve records FAILED iff the exit status is non-zero, DIFF if compare failed, END: FAILED in the history and exits 1. Holds for every device answer and fault position because answers are symbolic.",
    note="Trusted: what counts as acceptable output is the function isValidOutput itself (used as an uninterpreted function of its arguments); goexpect/HTTP library behaviour (Expect returns an error on timeout/EOF, StatusCode is what the device sent); runtime panics other than errlog.Abort are the subject of C20; the commit job polling loop is not proved to terminate.",
    tech='contract-based deductive verification: ghost counters and flags, exceptional postconditions, defer/recover modelling, per-device-type specialisation'),
+ 'C15': dict(category='proof', design_ref='DESIGN.md §4 C15',
+   text="Deductive proof on the real ios code of the guard typestate over the real field reloadActive: sendReloadCmd arms, cancelReload disarms (also on the exceptional path, because it is deferred), every ios.cmd (change command) requires the armed guard, 'configure terminal' of the change block is sent under the guard, writeMem requires the cancelled guard and (C09) all changes accepted, ApplyCommands returns nil only with no reload pending; re-arm: cmd re-arms exactly once if a 'SHUTDOWN in 0:01:00' banner was recognised in the reply of either half of a joined command (genuine defect found and repaired: fix 9df1131); banner handling: stripReloadBanner cuts exactly the leftmost match [l0,l1) out of the output, takes the message from group [l2,l3), reports the one-minute warning iff the message matches, and leaves the output untouched when no guard is active or no banner is present.",
+   note="Trusted: regexp semantics (FindStringSubmatchIndex/MatchString as uninterpreted functions with the index layout the code relies on); that the device sends one extra prompt after a banner ('logging synchronous') and expect buffering/timing are environment behaviour outside the code and not covered.",
+   tech='contract-based deductive verification: typestate over a real field, ghost re-arm counter, functional postcondition on banner offsets'),
  'C11': dict(category='proof', design_ref='DESIGN.md §4 C11',
    text="Deductive proof over all device answers: a ghost flag isCompareRun is assigned from the argument at entry of device.ApproveOrCompare; every send primitive (console.Conn.Send/IssueCmd/SendCmd/GetCmdOutput, panos httpPrefixGetLog, nsx sendRequest, http PostForm, linux putScp) carries the precondition 'not a compare run, or the command is in the fixed read-only set', which is discharged at every call site of every function on the load, compare and apply paths (approve/compare verified once per device type); scans prove the raw primitives are used only inside those wrappers; site assertions prove that drc -C and the do-approve verb select the path.",
    note="Trusted: the read-only command list in pkg/console/zz_contracts_verif.go is the specification; the PAN-OS keygen URL built by net/url is not inspected (scan only shows httpGet is reached from getAPIKey and httpPrefixGetLog); library calls are assumed not to talk to the device.",
